@@ -34,16 +34,35 @@ type step struct {
 type fileSet struct {
 	Index  int    `json:"index"`
 	Config string `json:"config"`
-	Steps  []step `json:"steps"`
-	extra  map[string][]string
-	msts   []string
-	schema map[string]map[string]byte
+	// SingleWrite: every (series,timestamp) is written exactly once (late data still
+	// exists: old timestamps of keys not written before). Then statistics push-down is
+	// exact and aggregate answers are part of the before/after comparison.
+	SingleWrite bool   `json:"single_write"`
+	Steps       []step `json:"steps"`
+	extra       map[string][]string
+	msts        []string
+	schema      map[string]map[string]byte
 }
 
 const db = "db0"
 
 func genFileSet(r *rand.Rand, idx int) *fileSet {
-	fs := &fileSet{Index: idx, Config: "default"}
+	fs := &fileSet{Index: idx, Config: "default", SingleWrite: idx%2 == 0}
+	used := map[string]bool{}
+	keyOf := func(p model.Point) string { return p.Mst + "|" + model.SeriesKey(p.Tags) + "|" + fmt.Sprint(p.T) }
+	filter := func(pts []model.Point) []model.Point {
+		if !fs.SingleWrite {
+			return pts
+		}
+		var out []model.Point
+		for _, p := range pts {
+			if !used[keyOf(p)] {
+				used[keyOf(p)] = true
+				out = append(out, p)
+			}
+		}
+		return out
+	}
 	switch idx % 4 {
 	case 1:
 		fs.Config = "small-segments"
@@ -52,8 +71,14 @@ func genFileSet(r *rand.Rand, idx int) *fileSet {
 		fs.Config = "non-streaming-compact"
 		fs.extra = map[string][]string{"data": {"compaction-method = 1"}}
 	}
-	u := kit.NewUniverse(2, 4+r.IntN(3), 8)
+	u := kit.NewUniverse(2, 4+r.IntN(3), 16)
 	add := func(op string, pts []model.Point) {
+		if op == "write" {
+			pts = filter(pts)
+			if len(pts) == 0 {
+				return
+			}
+		}
 		st := step{Op: op, pts: pts}
 		for _, p := range pts {
 			st.Points = append(st.Points, p.LP())
@@ -141,7 +166,7 @@ type runner struct {
 // build starts a server and replays the file-set history. Returns the model.
 func (rn *runner) build(fs *fileSet, dir string, worker int) (*proc.Server, *model.Model, bool) {
 	c := rn.c
-	extra := map[string][]string{"data": {`write-cold-duration = "1h"`}}
+	extra := map[string][]string{"data.memtable": {`write-cold-duration = "1h"`, `force-snapShot-duration = "1h"`}}
 	for k, v := range fs.extra {
 		extra[k] = append(extra[k], v...)
 	}
@@ -329,6 +354,10 @@ func (rn *runner) uncrashed(fs *fileSet, kind string, worker int) int64 {
 		return 0
 	}
 	before := listFiles(s)
+	fp0 := ""
+	if fs.SingleWrite {
+		fp0, _ = aggFingerprint(s, fs)
+	}
 	n0, _ := s.FsCount()
 	if err := reorganise(s, kind); err != nil {
 		if !s.Alive() {
@@ -373,6 +402,16 @@ func (rn *runner) uncrashed(fs *fileSet, kind string, worker int) int64 {
 			return 0
 		}
 	}
+	if fs.SingleWrite && fp0 != "" {
+		if fp1, err := aggFingerprint(s, fs); err == nil {
+			c.Count("aggregate-fingerprints-compared", 1)
+			if d := fpDiff(fp0, fp1); d != "" {
+				c.Violation("aggregate-answer-changed-by:"+kind, fmt.Sprintf("file set %d (%s, every key written once): aggregate answers differ before/after %s: %s", fs.Index, fs.Config, kind, d),
+					witness(fs, crashCase{Kind: kind}, map[string]any{"diff": d}))
+				return 0
+			}
+		}
+	}
 	if !changed {
 		return 0
 	}
@@ -393,6 +432,10 @@ func (rn *runner) crashed(fs *fileSet, cc crashCase, worker, caseNo int) {
 	if err != nil || len(model.Diff(want, d0, "", 1)) > 0 {
 		c.Inconclusive("dump0-unusable", 1)
 		return
+	}
+	fp0 := ""
+	if fs.SingleWrite {
+		fp0, _ = aggFingerprint(s, fs)
 	}
 	if err := s.FsArm(cc.K, 0); err != nil {
 		c.Broken("arm: %v", err)
@@ -467,6 +510,22 @@ func (rn *runner) crashed(fs *fileSet, cc crashCase, worker, caseNo int) {
 		c.Violation("contents-changed-after-crash-in:"+cc.Kind, fmt.Sprintf("file set %d (%s): crash before [%s] of %s, after recovery: %s", fs.Index, fs.Config, dl, cc.Kind, strings.Join(d, "; ")),
 			witness(fs, cc, map[string]any{"died_before": dl, "second": second, "diff": d, "files_at_crash": atCrash, "files_after_recovery": listing(s), "server_log_errors": grepErrors(s)}))
 		return
+	}
+	if fs.SingleWrite && fp0 != "" {
+		if fp1, err := aggFingerprint(s, fs); err == nil {
+			c.Count("aggregate-fingerprints-compared", 1)
+			if d := fpDiff(fp0, fp1); d != "" {
+				sig := "aggregate-answer-changed-after-crash-in:" + cc.Kind
+				if cc.Kind == "merge" && len(listFiles(s).Unordered) > 0 {
+					// the merged ordered files are in place but the out-of-order inputs were not
+					// removed: their rows now exist twice on disk
+					sig += "|out-of-order-inputs-survive-next-to-merged-files"
+				}
+				c.Violation(sig, fmt.Sprintf("file set %d (%s, every key written once): crash before [%s] of %s: aggregate answers differ after recovery (rows duplicated or lost in files): %s", fs.Index, fs.Config, dl, cc.Kind, d),
+					witness(fs, cc, map[string]any{"died_before": dl, "diff": d, "files_at_crash": atCrash, "files_after_recovery": listing(s)}))
+				return
+			}
+		}
 	}
 	lo, dirty := leftovers(s)
 	if dirty > 0 {
@@ -732,4 +791,51 @@ func grepErrors(s *proc.Server) []string {
 		}
 	}
 	return out
+}
+
+// aggFingerprint: aggregate answers (statistics push-down, no hint) per measurement.
+func aggFingerprint(s *proc.Server, fs *fileSet) (string, error) {
+	var b strings.Builder
+	for _, m := range fs.msts {
+		for _, q := range []string{
+			"SELECT count(fi), sum(fi), count(ff), count(fs), count(fb) FROM " + m + " GROUP BY *",
+			"SELECT count(fi), sum(fi) FROM " + m,
+			fmt.Sprintf("SELECT count(ff) FROM %s WHERE time >= %d AND time <= %d GROUP BY time(5s) fill(none)", m, kit.BaseTime-5_000_000_000, kit.BaseTime+100_000_000_000),
+		} {
+			res, err := s.Query(db, q, nil)
+			if err != nil {
+				return "", err
+			}
+			var lines []string
+			if len(res.Results) > 0 {
+				for _, se := range res.Results[0].Series {
+					lines = append(lines, fmt.Sprintf("%s %v %v", model.SeriesKey(se.Tags), se.Columns, se.Values))
+				}
+			}
+			sort.Strings(lines)
+			b.WriteString(q + " => " + strings.Join(lines, " | ") + "\n")
+		}
+	}
+	return b.String(), nil
+}
+
+func fpDiff(a, b string) string {
+	la, lb := strings.Split(a, "\n"), strings.Split(b, "\n")
+	for i := range la {
+		if i >= len(lb) || la[i] != lb[i] {
+			x := ""
+			if i < len(lb) {
+				x = lb[i]
+			}
+			if len(x) > 600 {
+				x = x[:600]
+			}
+			y := la[i]
+			if len(y) > 600 {
+				y = y[:600]
+			}
+			return "before: " + y + " || after: " + x
+		}
+	}
+	return ""
 }
